@@ -14,8 +14,9 @@ PROPS = {
         'level_text': 'Verus discharges, for every state of the indexes and every configuration, the precedence chain of is_checker_enable_by_code, the report/skip/severity contract of add_diagnostic and get_severity, and the enable/library guards of diagnose_file, on the function text extracted from /repo on each run. Unbounded: no input is sampled.',
         'level_note': 'index lookups, default tables, translate_range and check_file are uninterpreted (weakest contract); LuaDiagnosticConfig::new is proved in unit c20_inputs (sets/maps are exactly the configured lists); the globals/globalsRegex guard (check_name_expr of undefined_global.rs) and the DiagnosticIndex writers are proved in unit c20_globals; which globalsRegex patterns compile / what they match is not covered; frame of `diagnostics` by module privacy + scan; Verus/Z3/rustc trusted',
         'not_covered': [
-            'globalsRegex compilation (Regex::new results unconstrained); the undefined_global guard that consults the globals sets',
+            'globalsRegex compilation (Regex::new results unconstrained)',
             'the ~50 checkers reach the diagnostics list only through add_diagnostic (scan, not proof)',
+            'a file without a module entry (remote document, outside every root) is never marked meta: the meta clause is proved for files that have one',
         ],
     },
     'C19': {
@@ -45,6 +46,15 @@ PROPS = {
         'level_text': 'Verus proves, for all ranges, kinds and codes, that DiagnosticAction::is_match returns true exactly when the suppression region shares a byte with the diagnostic (or contains a zero-width one) and the kind/code matches, and that the per-file scan returns true exactly when some recorded region matches; in the thorough tier Kani/CBMC proves the same is_match contract on the compiled real crate over the full u32 domain (loop-free, complete) and supplies the counterexample on failure.',
         'level_note': 'text-size shim (cross-checked by Kani), DiagnosticCode/FileId opaque with obeys_key_model; the regions of disable-next-line ([comment start, end of the line after the last line of the comment)) and disable-line (exactly the line of the comment) are proved on the extracted statement slices of diagnostic_tags.rs in unit c22_lineindex (labels C19.*) using the LuaDocument contracts; the block range of `disable` comes from the AST (not covered)',
         'not_covered': ['analyze_diagnostic_* AST plumbing (which comment owns which block)', 'checkers that bypass add_diagnostic (none found by scan)'],
+    },
+    'C24': {
+        'units': [{'unit': 'c24_dispatch'}],
+        'replays': [{'for': r'malformed-params-answered|C24\.initialize', 'driver': 'replay/c24', 'bin': 'replay', 'args': {'mode': 'all'}, 'thorough': True,
+                     'history': 'the real server (emmylua_ls::run_ls over stdio, re-executed as a child process): initialize, then requests with bogus / absent / wrongly typed params, an unknown method, a later well-formed request; a malformed initialize followed by a well-formed one; every id must get exactly one response'}],
+        'level': 'proof',
+        'level_text': 'The routing layer, on the real text, under the sequential-schedule abstraction of tokio (named rules async-seq-*): for EVERY request (any method string, any params) on_request_handler returns Ok(()) and the ghost log of responses handed to the connection grows by exactly one response carrying the request id - a registered method whose params deserialize is routed to its handler task (ServerContext::task sends exactly one of RequestCanceled / InternalError / the handler\'s response and removes the cancellation entry), an unknown method gets MethodNotFound, a registered method with malformed or missing params gets InvalidParams; the `dispatch_request!` macro is expanded by a unit-local rule that implements the macro definition read from the repository on every run (~40 arms); the initialize handshake of run_ls answers every initialize request exactly once (a malformed one with an error, then waits for the next) and completes; ServerMessageProcessor::handle_message answers every request and shutdown once and keeps serving; ServerContext::send / cancel.',
+        'level_note': 'assumed: every spawned task runs its body to completion exactly once (real tokio scheduling, a handler that PANICS - its id then gets no response: C25/C12 territory - duplicate request ids in flight, the transport are not modelled); is_cancelled an arbitrary bool; lsp_server 0.7.9 shims transcribed from its source (extract: Ok iff method matches and params deserialize); the macro-expansion rule is not rustc\'s expander (cross-checked by the replay on the compiled server); notifications, the routing of $/cancelRequest to cancel, handle_shutdown and the run / wait_for_initialization loops are not covered',
+        'not_covered': ['handlers that panic', 'notifications incl. $/cancelRequest routing', 'real task scheduling', 'transport / framing'],
     },
     'C32': {
         'units': [{'unit': 'c32_merge', 'labels': [r'C32\.', r'^(?!.*\[C3[12]\.).*$']}],
@@ -93,6 +103,15 @@ PROPS = {
         'technique': 'contract = auto-trait obligations (Send + Sync with unsafe impls stripped; NoInteriorMut with a negative impl for UnsafeCell) discharged by the rustc trait solver on the real crates; bounded stress search as witness generator when undecided',
         'not_covered': ['interior mutability that is semantically transparent would make the check undecided, not violated', 'SemanticModel (RefCell cache + unsafe impl): per-query view, not held by the analysis', 'statics / thread-locals / IO'],
     },
+    'C39': {
+        'units': [{'unit': 'c39_write'}],
+        'replays': [{'for': r'original-or-formatted-at-every-point', 'driver': 'replay/c39', 'bin': 'replay', 'args': {'mode': 'all'}, 'thorough': True,
+                     'history': 'the real luafmt binary under a file-size limit: `ulimit -f 8; luafmt --write big.lua` (SIGXFSZ), the same with the signal ignored (EFBIG), `ulimit -f 0`, and two files; afterwards every target must hold its complete original or its complete formatted content'}],
+        'level': 'proof',
+        'level_text': 'Crash safety as a contract over a ghost file-system log (every state the file system passes through): on the real per-file write step of luafmt\'s main and the real helpers write_atomically / write_then_rename / temp_sibling, for every path, original content and formatted text: in --write mode the target holds its complete original or its complete formatted content at EVERY state (also when an operation fails or the process stops between two operations); only the target and a not previously existing temporary sibling ever change; a failed operation is reported and makes the exit status non-zero; --check / --list-different never write. Composition over several files is a proved lemma over the step contract.',
+        'level_note': 'the file-system MODEL is the platform specification and is trusted: fs::write = truncate, then chunked appends, stoppable anywhere; rename within one directory is atomic; create_new never touches an existing file; write_all through a handle touches only that file; every Err is counted. Assumed: alias-free paths (no hard links / symlinks between the files of one run), no concurrent writer, the target still holds what read_to_string returned; power-loss durability (directory fsync) is not claimed; the `for path in &files` loop text, the stdin / --output paths and collect_lua_files (distinct targets) are not under contract',
+        'not_covered': ['durability across power loss', 'the --output and stdin paths', 'file collection', 'a stale temporary file left by a killed process'],
+    },
     'C09': {
         # c22_vfs: a re-submitted text is always re-parsed under the current configuration (trees are Vfs state that clear() does not touch)
         'units': [{'unit': 'c09_clear'}, {'unit': 'c09_reindex'}, {'unit': 'c22_vfs', 'labels': [r'C09\.vfs']},
@@ -116,7 +135,7 @@ PROPS = {
         'level': 'proof',
         'level_text': 'Verus proves, for every text below 4 GiB, every offset and every (line, column): LineIndex::parse establishes the line-start/ASCII-flag representation invariant; get_line_col returns the line containing a char-boundary offset and the number of characters before it on that line; get_offset returns None exactly when the line does not exist and otherwise a char-boundary offset inside that line, exact when the column exists and clamped to the end of the line\'s content otherwise; lemma_round_trip derives offset -> position -> offset identity from these two contracts alone; the LuaDocument wrappers inherit the contracts.',
         'level_note': 'std contracts assumed: slice::partition_point, str::chars().count(), <str as Index>::index forwarding to SliceIndex; text-size shim; the invariant wf(line_index, text) that the LuaDocument contracts assume is established by unit c22_vfs (Vfs::set_file_content stores LineIndex::parse(text) with the text; get_document pairs them) together with the postcondition of parse; columns are counted in Unicode scalar values (C23 is separate); content end of a CRLF line is the position of its \\n',
-        'not_covered': ['Vfs pairing of text and LineIndex', 'LineIndex::is_line_only_ascii, LuaDocument::{get_text_slice, get_line_count, get_document_lsp_range, ...}'],
+        'not_covered': ['LineIndex::is_line_only_ascii (public one-line wrapper), LuaDocument::{get_text_slice, get_line_count} (to_lsp_location and get_document_lsp_range are under contract in unit c26_locations)', 'UTF-16 columns: property C23'],
     },
     'C10': {
         'units': [{'unit': 'c10_remove'}, {'unit': 'c10_remove2'}, {'unit': 'c22_vfs', 'labels': [r'C10\.vfs']},
